@@ -489,6 +489,7 @@ static void appOps(World *w, const ThreadProg &tp, std::vector<std::thread> *oth
     {
       SessionId s = (SessionId)atoi(f[1].c_str());
       std::string tag = f[2];
+      w->tr.add(vf::Ev("ObserveCall").str("t", tp.name).i("s", (long long)s).str("tag", tag));
       auto id = t->observe(s, [w, tag](SessionId sid, const TransportErrorInfo &)
                            { w->tr.add(vf::Ev("Obs").i("s", (long long)sid).str("tag", tag).b("as", w->stopReturned.load())); });
       w->setObs(tag, id);
@@ -506,6 +507,7 @@ static void appOps(World *w, const ThreadProg &tp, std::vector<std::thread> *oth
     {
       SessionId s = (SessionId)atoi(f[1].c_str());
       auto *tag = new std::string(f[2]);
+      w->tr.add(vf::Ev("SetDataCall").str("t", tp.name).i("s", (long long)s).str("tag", f[2]));
       t->setSessionData(s, tag,
                         [w, s](void *p)
                         {
